@@ -100,6 +100,8 @@ pub struct SimNet<S, R> {
     rx: tokio::sync::Mutex<mpsc::UnboundedReceiver<R>>,
     /// observer called on every send (for recording), before scheduling
     tap: Option<Arc<dyn Fn(usize, &S) + Send + Sync>>,
+    /// observer called for every copy that is actually scheduled for delivery: (from, to, message)
+    dtap: Option<Arc<dyn Fn(usize, usize, &S) + Send + Sync>>,
 }
 
 impl<S: Clone + Send + Sync + 'static, R: Send + 'static> SimNet<S, R> {
@@ -119,7 +121,13 @@ impl<S: Clone + Send + Sync + 'static, R: Send + 'static> SimNet<S, R> {
             out: out.clone(),
             rx: tokio::sync::Mutex::new(rx),
             tap,
+            dtap: None,
         }
+    }
+
+    pub fn with_dtap(mut self, dtap: Arc<dyn Fn(usize, usize, &S) + Send + Sync>) -> Self {
+        self.dtap = Some(dtap);
+        self
     }
 
     fn deliver(&self, msg: &S, addr: SocketAddr) {
@@ -145,7 +153,11 @@ impl<S: Clone + Send + Sync + 'static, R: Send + 'static> SimNet<S, R> {
             let _ = tx.send(msg.clone());
             return;
         }
-        for d in self.hub.schedule() {
+        let delays = self.hub.schedule();
+        if !delays.is_empty() && let Some(t) = &self.dtap {
+            t(self.owner, (addr.port() as usize).saturating_sub(1000) / 10, msg);
+        }
+        for d in delays {
             let tx = tx.clone();
             let m = msg.clone();
             tokio::spawn(async move {
@@ -341,6 +353,13 @@ pub fn run(cfg: &SimConfig) -> anyhow::Result<(Vec<Value>, Value)> {
         }
         let epoch = EpochInfo::new(validators.clone());
 
+        // which validators every shred was scheduled for (fault-free dissemination must reach everyone)
+        let shred_seen: Arc<Mutex<HashMap<(u64, usize, usize), HashSet<usize>>>> = Arc::new(Mutex::new(HashMap::new()));
+        let shred_seen2 = shred_seen.clone();
+        let shred_dtap: Arc<dyn Fn(usize, usize, &Shred) + Send + Sync> = Arc::new(move |_from, to, sh| {
+            let (slot, slice, idx) = sh.verif_position();
+            shred_seen2.lock().unwrap().entry((slot.inner(), slice, idx)).or_default().insert(to);
+        });
         let bus_a2a = Bus::<ConsensusMessage>::new("all2all");
         let bus_shred = Bus::<Shred>::new("shreds");
         let bus_req = Bus::<RepairRequest>::new("repair_req");
@@ -392,7 +411,7 @@ pub fn run(cfg: &SimConfig) -> anyhow::Result<(Vec<Value>, Value)> {
                 let net: SimNet<ConsensusMessage, ConsensusMessage> =
                     SimNet::join(&hub, i, &bus_a2a, &bus_a2a, v.all2all_address, Some(tap.clone()));
                 let snet: SimNet<Shred, Shred> =
-                    SimNet::join(&hub, i, &bus_shred, &bus_shred, v.disseminator_address, None);
+                    SimNet::join(&hub, i, &bus_shred, &bus_shred, v.disseminator_address, None).with_dtap(shred_dtap.clone());
                 let hostile = HostileNets {
                     req: SimNet::join(&hub, i, &bus_req, &bus_resp, v.repair_requester_address, None),
                     resp: SimNet::join(&hub, i, &bus_resp, &bus_req, v.repair_responder_address, None),
@@ -407,7 +426,7 @@ pub fn run(cfg: &SimConfig) -> anyhow::Result<(Vec<Value>, Value)> {
                 SimNet::join(&hub, i, &bus_a2a, &bus_a2a, v.all2all_address, Some(tap.clone()));
             let all2all = TrivialAll2All::new(validators.clone(), a2a_net);
             let shred_net: SimNet<Shred, Shred> =
-                SimNet::join(&hub, i, &bus_shred, &bus_shred, v.disseminator_address, None);
+                SimNet::join(&hub, i, &bus_shred, &bus_shred, v.disseminator_address, None).with_dtap(shred_dtap.clone());
             let disseminator = Rotor::new(shred_net, vepoch.clone());
             let rq: SimNet<RepairRequest, RepairResponse> =
                 SimNet::join(&hub, i, &bus_req, &bus_resp, v.repair_requester_address, None);
@@ -776,6 +795,22 @@ pub fn run(cfg: &SimConfig) -> anyhow::Result<(Vec<Value>, Value)> {
                 _ => {}
             }
         }
+        // fault-free dissemination: every shred of every slot that all nodes finalized was scheduled for every
+        // validator other than the slot's leader (meaningful only for runs without loss / crashes / Byzantine players)
+        let min_final = finals.iter().filter_map(|f| f["finalized_slot"].as_u64()).min().unwrap_or(0);
+        let mut shred_total = 0u64;
+        let mut shred_gaps = Vec::new();
+        for ((slot, slice, idx), tos) in shred_seen.lock().unwrap().iter() {
+            if *slot == 0 || *slot + 2 > min_final {
+                continue;
+            }
+            shred_total += 1;
+            let leader = ((*slot / 4) % n as u64) as usize;
+            let missing: Vec<usize> = (0..n).filter(|v| *v != leader && !tos.contains(v)).collect();
+            if !missing.is_empty() && shred_gaps.len() < 20 {
+                shred_gaps.push(json!({"slot": slot, "slice": slice, "index": idx, "leader": leader, "missing": missing}));
+            }
+        }
         let counts: HashMap<String, u64> = hub
             .counts
             .lock()
@@ -784,6 +819,7 @@ pub fn run(cfg: &SimConfig) -> anyhow::Result<(Vec<Value>, Value)> {
             .map(|(k, v)| (k.to_string(), *v))
             .collect();
         json!({"finals": finals, "task_panics": task_panics, "messages": counts,
+               "shreds_checked": shred_total, "shred_gaps": shred_gaps,
                "max_consensus_datagram": *hub.max_datagram.lock().unwrap()})
     });
 
